@@ -722,10 +722,9 @@ def location_candidates_rule(ctx):
     from ..xeval import exact as _exact
 
     repo = ctx.repo
-    r = ctx.rule("R8.14", "point location: the default candidate set of Get_Mapping holds the element containing each query coordinate (stretched two-triangle mesh, single-point queries, exact KD-tree)", min_instances=5)
+    r = ctx.rule("R8.14", "point location: the default candidate set of Get_Mapping holds the element containing each query coordinate (stretched two-triangle meshes, single-point queries, exact KD-tree)", min_instances=9)
     ge = repo.cls(GE)
     f = ge.methods["_Get_nearby_elements"]
-    coord = XArray((4, 3), [Q(0), Q(0), Q(0), Q(10), Q(0), Q(0), Q(5), Q(3), Q(0), Q(5), Q(-1, 2), Q(0)])
     connect = XArray((2, 3), [0, 1, 2, 0, 3, 1])
     rows = [[0, 1, 2], [0, 3, 1]]
 
@@ -741,17 +740,21 @@ def location_candidates_rule(ctx):
             return None
         return NotImplemented
 
-    for y, holder in ((Q(-2, 5), 1), (Q(1, 10), 0), (Q(2, 5), 0), (Q(1), 0), (Q(2), 0), (Q(14, 5), 0)):
+    # nodes A(0,0) B(10,0) C(5,3) and D below AB: under the middle of AB, then under its first fifth (query points far from the centroid of ABC)
+    cases = [(Q(5), Q(-1, 2), Q(5), y, h) for y, h in ((Q(-2, 5), 1), (Q(1, 10), 0), (Q(2, 5), 0), (Q(1), 0), (Q(2), 0), (Q(14, 5), 0))]
+    cases += [(Q(2), Q(-3, 10), Q(2), y, h) for y, h in ((Q(-1, 5), 1), (Q(1, 5), 0), (Q(1, 2), 0))]
+    for dx, dy, x, y, holder in cases:
+        coord = XArray((4, 3), [Q(0), Q(0), Q(0), Q(10), Q(0), Q(0), Q(5), Q(3), Q(0), dx, dy, Q(0)])
         r.instance(fn=f.qualname)
         g = XObj(ge, {"coord": coord, "nodes": XArray((4,), [0, 1, 2, 3]), "connect": connect, "_global_to_local_nodes": XArray((4,), [0, 1, 2, 3]), "Nn": 4, "Ne": 2, "dim": 2, "inDim": 2, "Get_Elements_Nodes": elements_of})
         g.attrs[ge.mangle("__connect")] = connect
         g.attrs[ge.mangle("__coord")] = coord
         I = Interp(repo)
         I.call_hook = hook
-        q = XArray((1, 3), [Q(5), y, Q(0)])
+        q = XArray((1, 3), [x, y, Q(0)])
         out = I.call_function(f, [q], self_obj=g)
         got = sorted(int(_exact(v)) for v in XArray.from_nested(out).data) if not isinstance(out, (int,)) else [int(out)]
         if holder in got:
-            r.ok(f"point (5, {y}) alone: candidates {got} hold element {holder}")
+            r.ok(f"D({dx}, {dy}), point ({x}, {y}) alone: candidates {got} hold element {holder}")
         else:
-            r.fail(f.qualname, "candidates", f.file, f.lineno, "_Get_nearby_elements", f"nodes A(0,0) B(10,0) C(5,3) D(5,-1/2), triangles ABC and ADB, single query point (5, {y}): it lies in element {holder} but the candidate elements are {got} (the closest node belongs to the other triangle only): the point is not located and the evaluated field is 0 there")
+            r.fail(f.qualname, "candidates", f.file, f.lineno, "_Get_nearby_elements", f"nodes A(0,0) B(10,0) C(5,3) D({dx},{dy}), triangles ABC and ADB, single query point ({x}, {y}): it lies in element {holder} but the candidate elements are {got}: the point is not located and the evaluated field is 0 there")
